@@ -169,6 +169,13 @@ def check(run):
             run.violation("operation-raised", name, {"op": name}, "f", repr(e))
         if r is not None and (not isinstance(r, spherical.Modes) or r.spin_weight != 1 or not np.array_equal(r.ndarray, f1.ndarray)):
             run.violation("zero-scalar-add", name, {"op": name}, "f", "differs")
+    from .. import layouts
+    def _g(f):
+        return helpers.make_modes(__import__("random").Random(7), f.spin_weight, f.ell_max + 1, (3,))
+    layouts.sweep_modes(run, "algebra", [("f+g", lambda f: f + _g(f)), ("f-g", lambda f: f - _g(f)), ("g-f", lambda f: _g(f) - f), ("np.add(f,g)", lambda f: np.add(f, _g(f))),
+                                         ("np.conjugate(f)", lambda f: np.conjugate(f)), ("f.bar", lambda f: f.bar), ("f.conjugate()", lambda f: f.conjugate()), ("-f", lambda f: -f),
+                                         ("f.norm()", lambda f: f.norm()), ("f.real", lambda f: f.real), ("f.imag", lambda f: f.imag), ("np.absolute(f)", lambda f: np.absolute(f))],
+                        [-2, 0, 1] if quick else range(-3, 4), exact=lambda nm: nm not in ("f.norm()", "np.absolute(f)"))
     run.assumptions += ["norm = L2 norm of the function relies on orthonormality of sYlm (not proved): the check is sqrt(sum |f_lm|^2)"]
 
 
